@@ -25,6 +25,8 @@
 #include <memory>
 #include <type_traits>
 #include <sys/wait.h>
+#include <sys/mman.h>
+#include <ucontext.h>
 
 using namespace SimTK;
 using vh::Json;
@@ -283,7 +285,9 @@ static std::unique_ptr<F> makeFactor(const Matrix_<E>& mat, int mode, bool useRc
 }
 
 // ------------------------------------------------------------------ shared oracles
-static const LD C_RES = 8;      // backward-error constant: tolerance = C_RES*(dim+10)*eps*(|A||x|+|b|)
+static const LD C_RES = 8;      // backward-error constant: tolerance = C_RES*(dim+10)*eps*(|A||x|+|b|)   (LU, LLT)
+static const LD C_ORT = 80;     // same for the orthogonal-transformation based methods (QTZ, SVD, Eigen): small matrices
+                                // use ~20 eps there; calibrated so that the worst ratio on the unchanged tree is ~1e-2
 static LD dimf(int m, int n) { return (LD)(std::max(m, n) + 10); }
 
 template <class T> static LM randomRhs(int m, int k, LD scale, vh::Rng& r) {
@@ -314,17 +318,17 @@ template <class T> static void lsOracle(Case& cs, const std::string& op, const L
     if (!finiteOrViol(cs, op, X)) return;
     const LD eps = epsOf<T>(), d = dimf(A.m, A.n);
     if (li.r == 0) {            // zero matrix: the minimum-norm solution is exactly 0
-        chk(cs, cs.key("lsq", op, "zero-matrix"), (double)fro(X), 0.0, [&] { return cs.desc().set("normX", (double)fro(X)); });
+        chk(cs, cs.key("lsq", "solve", "zero-matrix"), (double)fro(X), 0.0, [&] { return cs.desc().set("normX", (double)fro(X)); });
         return;
     }
     LM Rm = sub(mul(A, X), B), G = mulH(A, Rm), Nx = li.Vnull.n ? mulH(li.Vnull, X) : LM(0, X.n);
     for (int j = 0; j < B.n; ++j) {
         LD nx = fro(col(X, j)), nb = fro(col(B, j));
-        LD tolA = (C_RES * d * eps * li.s1 + li.trunc * li.snext) * (li.s1 * nx + nb);
+        LD tolA = (C_ORT * d * eps * li.s1 + li.trunc * li.snext) * (li.s1 * nx + nb);
         chk(cs, cs.key("lsq", op), (double)fro(col(G, j)), (double)tolA,
                    [&] { return cs.desc().set("column", j).set("rank", li.r).set("s1", (double)li.s1).set("sr", (double)li.sr).set("snext", (double)li.snext); });
         if (li.Vnull.n) {
-            LD tolB = (C_RES * d * eps * li.s1 / li.sr + li.trunc * li.snext / li.sr) * nx;
+            LD tolB = (C_ORT * d * eps * li.s1 / li.sr + li.trunc * li.snext / li.sr) * nx;
             chk(cs, cs.key("minnorm", op), (double)fro(col(Nx, j)), (double)tolB,
                        [&] { return cs.desc().set("column", j).set("rank", li.r).set("normX", (double)nx).set("sr", (double)li.sr); });
         }
@@ -564,7 +568,7 @@ template <class T> static void caseQTZ(Case& cs) {
         return;
     }
     RectCase rc = makeRect<T>(cs, m, n, true);
-    rc.li.trunc = 10 * std::sqrt(dimf(m, n));
+    rc.li.trunc = 30 * std::sqrt(dimf(m, n));
     std::unique_ptr<FactorQTZ> f;
     withView<T>(rc.A, vk, [&](const auto& mat) { guard(cs, "factor", [&] { f = makeFactor<FactorQTZ, T>(mat, mode, rc.useRc, (R)rc.rc); }); });
     c.cover("view:qtz:" + cs.et + ":" + cs.view); c.cover("mode:qtz:" + cs.mode); c.cover(std::string("rcond:qtz:") + (rc.useRc ? (rc.rc == 0 ? "zero" : "user") : "default"));
@@ -612,7 +616,7 @@ template <class T> static void caseSVD(Case& cs) {
     RectCase rc;
     if (m == 0 || n == 0) { cs.rankCls = "none"; rc.A = LM(m, n); rc.t.m = m; rc.t.n = n; rc.rc = defaultRcond<T>(m, n); }
     else rc = makeRect<T>(cs, m, n, false);
-    rc.li.trunc = 4;
+    rc.li.trunc = 30;
     const int k = std::min(m, n);
     std::unique_ptr<FactorSVD> f;
     withView<T>(rc.A, vk, [&](const auto& mat) { guard(cs, "factor", [&] { f = makeFactor<FactorSVD, T>(mat, mode, rc.useRc, (R)rc.rc); }); });
@@ -635,7 +639,7 @@ template <class T> static void caseSVD(Case& cs) {
         bool ok = sv.size() == k; LD worst = 0;
         if (ok) for (int i = 0; i < k; ++i) { if (!(sv[i] >= 0) || (i && sv[i] > sv[i - 1])) ok = false; worst = std::max(worst, std::abs((LD)sv[i] - rc.t.sig[i])); }
         if (!ok) c.viol(cs.key("sv", "getSingularValues", "not-descending-nonnegative-or-wrong-count"), wit().set("count", sv.size()));
-        else chk(cs, cs.key("sv", "getSingularValues"), (double)worst, (double)(C_RES * d * eps * nA), [&] { return wit(); });
+        else chk(cs, cs.key("sv", "getSingularValues"), (double)worst, (double)(C_ORT * d * eps * nA), [&] { return wit(); });
         break; }
     case 1: {                   // rank
         hist += "r";
@@ -653,13 +657,13 @@ template <class T> static void caseSVD(Case& cs) {
         LM U = fromSimTK<T>(Um), Vt = fromSimTK<T>(Vm);
         if (!(U.m == m && U.n == m && Vt.m == n && Vt.n == n && sv.size() == k)) { c.viol(cs.key("shape", "getSingularValuesAndVectors"), cs.desc()); break; }
         if (!finiteOrViol(cs, "getSingularValuesAndVectors", U) || !finiteOrViol(cs, "getSingularValuesAndVectors", Vt)) break;
-        chk(cs, cs.key("orth", "leftVectors"), (double)fro(sub(mulH(U, U), eye(m))), (double)(C_RES * d * eps * std::sqrt((LD)m)), [&] { return cs.desc(); });
-        chk(cs, cs.key("orth", "rightVectors"), (double)fro(sub(mul(Vt, herm(Vt)), eye(n))), (double)(C_RES * d * eps * std::sqrt((LD)n)), [&] { return cs.desc(); });
+        chk(cs, cs.key("orth", "leftVectors"), (double)fro(sub(mulH(U, U), eye(m))), (double)(C_ORT * d * eps * std::sqrt((LD)m)), [&] { return cs.desc(); });
+        chk(cs, cs.key("orth", "rightVectors"), (double)fro(sub(mul(Vt, herm(Vt)), eye(n))), (double)(C_ORT * d * eps * std::sqrt((LD)n)), [&] { return cs.desc(); });
         LM US(m, n); bool desc = true;
         for (int j = 0; j < k; ++j) { if (!(sv[j] >= 0) || (j && sv[j] > sv[j - 1])) desc = false; for (int i = 0; i < m; ++i) US(i, j) = U(i, j) * (LD)sv[j]; }
         c.require(cs.key("sv", "getSingularValuesAndVectors", "not-descending-nonnegative"), desc, [&] { return cs.desc(); });
         // rightVectors holds V^H (rows are the right singular vectors): A = U * S * rightVectors
-        chk(cs, cs.key("recon", "U.S.Vh-is-not-A"), (double)fro(sub(mul(US, Vt), rc.A)), (double)(C_RES * d * eps * nA), [&] { return wit(); });
+        chk(cs, cs.key("recon", "U.S.Vh-is-not-A"), (double)fro(sub(mul(US, Vt), rc.A)), (double)(C_ORT * d * eps * nA), [&] { return wit(); });
         break; }
     default: {                  // solves and inverse
         hist += "s";
@@ -738,7 +742,7 @@ template <class T> static void caseEigen(Case& cs) {
     auto wit = [&] { return cs.desc().set("normA", (double)nA).set("condX", (double)kX).set("scale", (double)scale); };
     Vector_<CT> vals0;
     if (mode == 3 || r.coin(0.3)) {                     // values only, first
-        if (!guard(cs, "getAllEigenValues", [&] { e->getAllEigenValues(vals0); }, n == 0 ? "empty" : "")) return;
+        if (!guard(cs, n == 0 ? "compute" : "getAllEigenValues", [&] { e->getAllEigenValues(vals0); }, n == 0 ? "empty" : "")) return;
     }
     Vector_<CT> vals; Matrix_<CT> vecs;
     if (std::is_same<T, std::complex<double> >::value && n > 0) {
@@ -754,7 +758,7 @@ template <class T> static void caseEigen(Case& cs) {
         }
         vecs.resize(n, n);
     }
-    if (!guard(cs, "getAllEigenValuesAndVectors", [&] { e->getAllEigenValuesAndVectors(vals, vecs); }, n == 0 ? "empty" : "")) return;
+    if (!guard(cs, n == 0 ? "compute" : "getAllEigenValuesAndVectors", [&] { e->getAllEigenValuesAndVectors(vals, vecs); }, n == 0 ? "empty" : "")) return;
     if (!(vals.size() == n && vecs.nrow() == n && vecs.ncol() == n)) { c.viol(cs.key("shape", "getAllEigenValuesAndVectors"), cs.desc().set("values", vals.size()).set("rows", vecs.nrow()).set("cols", vecs.ncol())); return; }
     if (n == 0) { c.require(cs.key("shape", "getAllEigenValuesAndVectors", "empty"), true, [&] { return cs.desc(); }); return; }
     LM L = fromSimTK<CT>(vals), V = fromSimTK<CT>(vecs);
@@ -768,20 +772,21 @@ template <class T> static void caseEigen(Case& cs) {
         // attribute: LapackInterface::geev<real> treats |Im lambda| < 1e-6 (absolute) as a real eigenvalue
         std::string det = seq;
         if (!cplx && L(j, 0).imag() != 0 && std::abs(L(j, 0).imag()) < (LD)1e-6) det = seq.empty() ? "complex-pair-with-tiny-imaginary-part" : seq;
-        c.require(cs.key("eig", "vector-norm", det), nv > 0.5 && nv < 2, [&] { return wit().set("column", j).set("norm", (double)nv); });
-        chk(cs, cs.key("eig", "A.v-is-not-lambda.v", det), (double)res, (double)(C_RES * d * eps * nA * std::max(nv, (LD)1)),
+        const std::string opn = det.empty() ? "vector-norm" : "vectors", opr = det.empty() ? "A.v-is-not-lambda.v" : "vectors";
+        c.require(cs.key(det.empty() ? "eig" : "eigdefect", opn, det), nv > 0.5 && nv < 2, [&] { return wit().set("column", j).set("norm", (double)nv).set("what", "norm of eigenvector not 1"); });
+        chk(cs, cs.key(det.empty() ? "eig" : "eigdefect", opr, det), (double)res, (double)(C_ORT * d * eps * nA * std::max(nv, (LD)1)),
                 [&] { return wit().set("column", j).set("re_lambda", (double)L(j, 0).real()).set("im_lambda", (double)L(j, 0).imag()); });
     }
     // the eigenvalue sets (both calls): sum = trace; every value near a constructed eigenvalue (Bauer-Fike)
     auto judgeValues = [&](const LM& Lv, const std::string& op) {
         LC tr(0), sum(0); for (int i = 0; i < n; ++i) { tr += A(i, i); sum += Lv(i, 0); }
-        chk(cs, cs.key("eigval", op, "sum-is-not-trace"), (double)std::abs(sum - tr), (double)(C_RES * d * eps * nA * std::sqrt((LD)n)), [&] { return wit(); });
+        chk(cs, cs.key("eigval", op, "sum-is-not-trace"), (double)std::abs(sum - tr), (double)(C_ORT * d * eps * nA * std::sqrt((LD)n)), [&] { return wit(); });
         if (lam.empty()) return;
         LD worst = 0, worstIm = 0;
         for (int i = 0; i < n; ++i) { LD best = -1; for (auto& t : lam) { LD dd = std::abs(Lv(i, 0) - t); if (best < 0 || dd < best) best = dd; }
             worst = std::max(worst, best); worstIm = std::max(worstIm, std::abs(Lv(i, 0).imag())); }
-        chk(cs, cs.key("eigval", op, cs.rankCls), (double)worst, (double)(C_RES * d * eps * nA * kX * 4), [&] { return wit(); });
-        if (herm_) chk(cs, cs.key("eigval", op, "hermitian-not-real"), (double)worstIm, (double)(C_RES * d * eps * nA), [&] { return wit(); });
+        chk(cs, cs.key("eigval", op, cs.rankCls), (double)worst, (double)(C_ORT * d * eps * nA * kX * 4), [&] { return wit(); });
+        if (herm_) chk(cs, cs.key("eigval", op, "hermitian-not-real"), (double)worstIm, (double)(C_ORT * d * eps * nA), [&] { return wit(); });
     };
     judgeValues(L, "getAllEigenValuesAndVectors");
     if (vals0.size() || mode == 3) {
@@ -789,6 +794,43 @@ template <class T> static void caseEigen(Case& cs) {
         else { LM L0 = fromSimTK<CT>(vals0); if (finiteOrViol(cs, "getAllEigenValues", L0)) judgeValues(L0, "getAllEigenValues"); }
     }
 }
+
+// ------------------------------------------------------------------ environment work-around
+// OpenBLAS 0.3.21 (the system BLAS/LAPACK) over-reads: its complex gemv_n, called by LAPACK's
+// ?larf with a strided x (a row of A), loads one more strided element x[n*incx], which can lie up
+// to a few elements past the end of a perfectly sized matrix buffer (valgrind on the non-ASan
+// build shows the same invalid reads: "16 bytes after a block of size 896 alloc'd" for a 14x4
+// complex<double> matrix in zgesdd). The value is never used. Under ASan's allocator a buffer that
+// fills its chunk exactly and sits at the end of the mapped part of a size-class region is followed
+// by unmapped memory, so this harmless over-read kills the process (SEGV in ?gemv_n, no redzone
+// involved, nothing Simbody does wrong). The handler below maps a zero page when an *uninstrumented
+// read* faults on the first page past a 64 KiB mapping step inside ASan's primary allocator space and
+// restarts the instruction; everything else goes to ASan's own handler. Fix-ups are counted.
+#if defined(VH_ASAN) || defined(__SANITIZE_ADDRESS__)
+static struct sigaction g_prevSegv;
+static volatile long g_overreadFixups = 0;
+static void segvFixup(int sig, siginfo_t* si, void* ucv) {
+    ucontext_t* uc = (ucontext_t*)ucv;
+    const unsigned long long a = (unsigned long long)si->si_addr, err = (unsigned long long)uc->uc_mcontext.gregs[REG_ERR];
+    const bool isWrite = err & 2, present = err & 1;
+    if (!isWrite && !present && a >= 0x600000000000ULL && a < 0x640000000000ULL && (a & 0xFFFFULL) < 4096) {
+        void* p = mmap((void*)(a & ~4095ULL), 4096, PROT_READ, MAP_PRIVATE | MAP_ANONYMOUS | MAP_FIXED, -1, 0);
+        if (p != MAP_FAILED) { ++g_overreadFixups; return; }
+    }
+    if (g_prevSegv.sa_flags & SA_SIGINFO) { g_prevSegv.sa_sigaction(sig, si, ucv); return; }
+    if (g_prevSegv.sa_handler != SIG_DFL && g_prevSegv.sa_handler != SIG_IGN) { g_prevSegv.sa_handler(sig); return; }
+    signal(SIGSEGV, SIG_DFL); raise(SIGSEGV);
+}
+static void installOverreadFixup() {
+    struct sigaction sa; memset(&sa, 0, sizeof sa);
+    sa.sa_sigaction = segvFixup; sa.sa_flags = SA_SIGINFO | SA_NODEFER; sigemptyset(&sa.sa_mask);
+    sigaction(SIGSEGV, &sa, &g_prevSegv);
+}
+static long overreadFixups() { return g_overreadFixups; }
+#else
+static void installOverreadFixup() {}
+static long overreadFixups() { return 0; }
+#endif
 
 // ------------------------------------------------------------------ dispatch
 template <class T> static void runTyped(Case& cs, int fact) {
@@ -805,6 +847,8 @@ template <class T> static void runTyped(Case& cs, int fact) {
 int main(int argc, char** argv) {
     vh::Args args = vh::parseArgs(argc, argv);
     vh::Ctx c(args);
+    installOverreadFixup();
+    long fixSeen = 0;
     const long onlyFact = args.getInt("fact", -1), onlyType = args.getInt("type", -1);
     return vh::runCases(c, [&](long i, vh::Rng& r) {
         // factorization and element type cycle deterministically so that every cell is forced
@@ -818,6 +862,7 @@ int main(int argc, char** argv) {
         case 2: runTyped<std::complex<float> >(cs, fact); break;
         default: runTyped<std::complex<double> >(cs, fact); break;
         }
+        if (overreadFixups() != fixSeen) { c.obs("openblas-strided-overread-page-fixups", overreadFixups() - fixSeen); fixSeen = overreadFixups(); }
         if (c.wantSample() && i % 7 == 3) c.sample(cs.desc().set("case", i));
     });
 }
